@@ -79,6 +79,21 @@ span_join = Fn(FS, "join", impl=SIMPL, slot="diagn", ret="res", key="Span::join"
                             " && res.location.1 == (if self.location.1 >= other.location.1 { self.location.1 } else { other.location.1 })", ["C13"]),
               ])
 
+FR = "src/diagn/report.rs"
+cc_new = Fn(F, "new", impl=IMPL, slot="util", mode="stub", ret="res", key="CharCounter::new",
+            ensures=[C("chars_of_src", "res.chars@ == src@ && res.wf()")])
+get_line_info = Fn(FR, "get_line_info", impl="Report", slot="diagn", ret="res", key="Report::get_line_info", props=["C13", "C03"],
+    requires=[C("located", "!span.is_dummy()", ["C03"])],
+    ensures=[
+        C("start_line_and_character_column", "span_line_cols(fileserver.file_text(span.file_handle), span.location.0 as int, span.location.1 as int, res.line1 as int, res.col1 as int, res.line2 as int, res.col2 as int)", ["C13"]),
+        C("excerpt_contains_the_span_lines", "res.excerpt_line1 <= res.line1", ["C13"]),
+    ],
+    inserts=[Insert("\t\tLineInfo {\n\t\t\tline1,", "\t\tproof { assert(span_line_cols(chars@, span.location.0 as int, span.location.1 as int, line1 as int, col1 as int, line2 as int, col2 as int)); }\n", where="before"),
+             Insert("\t\tlet lines_before = {", "\t\tproof { assert(is_line_col_of(chars@, start as int, line1 as int, col1 as int)); assert(is_line_col_of(chars@, end as int, line2 as int, col2 as int));"
+                    " let k2 = choose|k: int| 0 <= k <= chars@.len() && line2 as int == util::line_of(chars@, k) && col2 as int == util::col_of(chars@, k) && (util::byte_off(chars@, k) >= end || k == chars@.len()) && (k > 0 ==> util::byte_off(chars@, k - 1) < end);"
+                    " util::lemma_line_col_bounds(chars@, k2); }\n", where="before")],
+)
+
 UNIT = Unit(
     "U-charcount", "u_charcount/skeleton.rs",
     items=[
@@ -86,6 +101,10 @@ UNIT = Unit(
         get_line_count, get_line_column_at_index, get_index_range_of_line,
         Type(FS, "struct", "Span", slot="diagn", derive="drop"),
         span_new, span_location, span_length, span_before, span_after, span_join,
+        cc_new,
+        Type(FR, "struct", "Report", slot="diagn"), Type(FR, "struct", "Message", slot="diagn"),
+        Type(FR, "enum", "MessageKind", slot="diagn", derive="Clone, Copy"), Type(FR, "struct", "LineInfo", slot="diagn"),
+        get_line_info,
     ],
     serves=["C13", "C03", "C19"],
     description="util::CharCounter (byte index <-> line/column) and diagn::Span arithmetic",
